@@ -218,21 +218,65 @@ def build_leaf(spec, reg=None):
     return obj, {"plain": obj.m, "U": gens.leaf_matrix_json(obj)}
 
 
-def build(tree, reg=None):
-    """-> (perceval circuit/component, lean tree json).  Raises what the real API raises."""
+def strip_tags(node):
+    if isinstance(node, dict):
+        return {k: strip_tags(v) for k, v in node.items() if k != "tag"}
+    if isinstance(node, list):
+        return [strip_tags(v) for v in node]
+    return node
+
+
+def copy_tags(src, dst):
+    """parameter tags of the long-lived objects, from the first occurrence of a shared object to another one"""
+    if "leaf" in src:
+        if "tag" in src["leaf"]:
+            dst["leaf"]["tag"] = src["leaf"]["tag"]
+        return
+    for a, b in zip(src["ops"], dst["ops"]):
+        copy_tags(a["c"], b["c"])
+
+
+def build(tree, reg=None, shared=None):
+    """-> (perceval circuit/component, lean tree json).  Raises what the real API raises.
+
+    A node carrying `"share": key` is ONE Python object: the first occurrence builds it, every other occurrence of the
+    key (same spec) adds that very object again (`Circuit.add` stores the object itself).  The model is a tree of
+    leaves, object identity is irrelevant for the matrix: it gets the sub-tree once per occurrence.
+    `op["via"]`: the operator the component is added with (`//` = add(merge=True) on a shallow copy, `@` = barrier
+    then `//`; default `Circuit.add`)."""
     import perceval as pcvl
+    if shared is None:
+        shared = {}
+    key = tree.get("share")
+    if key is not None and key in shared:
+        obj, lj, first = shared[key]
+        if strip_tags(first) != strip_tags(tree):
+            raise ValueError("harness: occurrences of shared object %r have different specs" % key)
+        copy_tags(first, tree)
+        return obj, lj
     if "leaf" in tree:
-        return build_leaf(tree["leaf"], reg)
-    c = pcvl.Circuit(tree["circ"])
-    items = []
-    for op in tree["ops"]:
-        sub, lsub = build(op["c"], reg)
-        if op["merge"] is None:
-            c.add(op["off"], sub)
-        else:
-            c.add(op["off"], sub, merge=op["merge"])
-        items.append({"off": op["off"], "c": lsub})
-    return c, {"circ": tree["circ"], "items": items}
+        obj, lj = build_leaf(tree["leaf"], reg)
+    else:
+        obj = pcvl.Circuit(tree["circ"])
+        items = []
+        for op in tree["ops"]:
+            sub, lsub = build(op["c"], reg, shared)
+            via = op.get("via")
+            if via == "//":
+                obj = obj // (op["off"], sub)
+            elif via == "@":
+                obj = obj @ (op["off"], sub)
+                items.append({"off": 0, "c": {"plain": tree["circ"],
+                                              "U": core.mat(np.eye(tree["circ"], dtype=complex).tolist())}})
+            elif op["merge"] is None:
+                obj.add(op["off"], sub)
+            else:
+                obj.add(op["off"], sub, merge=op["merge"])
+            items.append({"off": op["off"], "c": lsub})
+        lj = {"circ": tree["circ"], "items": items}
+    if key is not None:
+        shared[key] = (obj, lj, tree)
+    return obj, lj
 
 
 # ------------------------------------------------------------------------------------------------
@@ -477,8 +521,11 @@ def exc(e):
 
 
 def observe_unitary(case):
+    retune = case.get("retune")
     try:
-        c, lj = build(case["tree"])
+        work = copy.deepcopy(case["tree"])
+        reg = {} if retune else None
+        c, lj = build(work, reg)
     except Exception as e:
         return {"build_err": exc(e)}
     out = {"lean": lj}
@@ -488,6 +535,18 @@ def observe_unitary(case):
             c.compute_unitary() if f is None else c.compute_unitary(use_polarization=f)
         except Exception:
             pass
+    if retune:
+        # a long-lived circuit: parameters of (shared) component objects are set in place after an evaluation; the
+        # model gets the tree of the values now in force (a fresh build of that spec)
+        try:
+            params = {p.name: p for p in c.get_parameters()} if hasattr(c, "get_parameters") else {}
+            for rt in retune:
+                tag = apply_retune(work, rt["path"], rt["leaf"])
+                for key, v in var_values(rt["leaf"]).items():
+                    params[key + tag].set_value(v)
+            out["lean"] = build(strip_tags(work))[1]
+        except Exception as e:
+            return {"build_err": exc(e)}
     try:
         flag = case["flag"]
         u = c.compute_unitary() if flag is None else c.compute_unitary(use_polarization=flag)
@@ -1302,6 +1361,16 @@ def shrink(chk, case, sig):
                     break
                 cand = copy.deepcopy(cur)
                 del at(cand["tree"], p)["ops"][i]
+                stale = False
+                for rt in cand.get("retune", []):
+                    q = rt["path"]
+                    if tuple(q[:len(p)]) == tuple(p) and len(q) > len(p):
+                        if q[len(p)] == i:
+                            stale = True
+                        elif q[len(p)] > i:
+                            q[len(p)] -= 1
+                if stale:
+                    continue                  # the re-tuned leaf itself
                 if cand["kind"] in SIM_KINDS and not requires(cand["tree"]):
                     continue
                 if not has_empty(cur["tree"]) and has_empty(cand["tree"]):
@@ -1383,6 +1452,18 @@ def count_case(chk, case):
                 chk.branch("merged" if op["merge"] else "nested")
     if has_empty(tree):
         chk.branch("empty-circuit")
+    shapes = share_shapes(tree)
+    if shapes and (case["kind"] != "unitary" or case["flag"] is True or (case["flag"] is None and requires(tree))):
+        # (only evaluations on doubled modes count)
+        for s in shapes:
+            chk.branch(s)
+            chk.count("shared_shape", s)
+        chk.branch("shared-" + (case["kind"] if case["kind"] != "probs" else
+                                ("processor" if case["path"] == "processor" else "probs")))
+        for rt in case.get("retune", []):
+            key = node_at(tree, rt["path"]).get("share")
+            if key is not None and shared_key_count(tree, key) > 1:
+                chk.branch("shared-object-retuned")
     chk.count("m", tree_size(tree))
     chk.count("kind", case["kind"])
     nontrivial = any(k in POL_KINDS for k in kinds) and any(k in ("BS", "U", "UH", "PERM") for k in kinds)
@@ -1487,9 +1568,10 @@ def node_at(tree, path):
 
 
 def mark_vars(rng, tree, p=0.3):
-    for _, leaf in leaf_paths(tree):
-        if leaf["t"] in VAR_KINDS and rng.random() < p:
-            leaf["var"] = True
+    for nd in all_nodes(tree):
+        # (the leaves of a shared object are marked once, when the object is created: gen_shared_tree)
+        if "leaf" in nd and "share" not in nd and nd["leaf"]["t"] in VAR_KINDS and rng.random() < p:
+            nd["leaf"]["var"] = True
     return tree
 
 
@@ -1532,9 +1614,15 @@ def all_h_version(rng, modes, allow_plain):
     return out
 
 
-def gen_session(chk, rng, max_m, max_depth, max_ops, nmax, max_steps):
+def gen_session(chk, rng, max_m, max_depth, max_ops, nmax, max_steps, shared=False):
     m = rng.choice(list(range(2, max_m + 1)) * 3 + [1])
-    tree = mark_vars(rng, force_polarised(rng, gen_tree(rng, m, rng.randint(0, max_depth), rng.randint(1, max_ops))))
+    if shared:
+        # the circuit of the long-lived object holds component objects several times (extension 4)
+        m = max(m, 2)
+        tree = mark_vars(rng, gen_shared_tree(rng, m, rng.randint(0, max_depth), rng.randint(1, max(1, max_ops // 2)),
+                                              p_var=0.8))
+    else:
+        tree = mark_vars(rng, force_polarised(rng, gen_tree(rng, m, rng.randint(0, max_depth), rng.randint(1, max_ops))))
     path = rng.choice(["factory", "factory", "factory", "processor", "processor"])
     proc = path == "processor"
     steps = []
@@ -1543,7 +1631,7 @@ def gen_session(chk, rng, max_m, max_depth, max_ops, nmax, max_steps):
     nq = rng.randint(2, max_steps)
     while sum(st["op"] in QUERY_OPS for st in steps) < nq:
         r = rng.random()
-        if steps and r < 0.27:
+        if steps and r < (0.42 if shared else 0.27):
             # the circuit in force changes between two queries
             kinds = ["add", "add"]
             if not proc:
@@ -1551,7 +1639,23 @@ def gen_session(chk, rng, max_m, max_depth, max_ops, nmax, max_steps):
             vars_ = [(pth, lf) for pth, lf in leaf_paths(cur) if lf.get("var")]
             if vars_:
                 kinds += ["retune"] * 3
+            pool = [op["c"] for op in cur["ops"] if op["c"].get("share") is not None]
+            if shared:
+                sh = [(pth, lf) for pth, lf in vars_ if node_at(cur, pth).get("share") is not None]
+                if sh:
+                    vars_ = sh
+                    kinds += ["retune"] * 4
+                kinds = [x for x in kinds if x != "set"]
+                if pool:
+                    kinds += ["add-shared"] * 2
             k = rng.choice(kinds)
+            if k == "add-shared":
+                # the same object once more, at another place of the long-lived circuit
+                node = rng.choice(pool)
+                op = {"off": rng.randint(0, m - tree_size(node)), "c": copy.deepcopy(node), "merge": None}
+                steps.append({"op": "add", "item": op})
+                cur["ops"].append(copy.deepcopy(op))
+                continue
             if k == "set":
                 m2 = m if rng.random() < 0.75 else rng.choice(list(range(1, max_m + 1)))
                 new = mark_vars(rng, force_polarised(rng, gen_tree(rng, m2, rng.randint(0, max_depth),
@@ -1569,7 +1673,7 @@ def gen_session(chk, rng, max_m, max_depth, max_ops, nmax, max_steps):
                 pth, lf = rng.choice(vars_)
                 new = regen_leaf(rng, lf)
                 steps.append({"op": "retune", "path": list(pth), "leaf": new})
-                node_at(cur, pth)["leaf"] = copy.deepcopy(new)
+                apply_retune(cur, pth, new)
             continue
         r = rng.random()
         if prev is not None and r < 0.30:
@@ -1603,7 +1707,7 @@ def session_trees(case):
         elif st["op"] == "add":
             cur["ops"].append(copy.deepcopy(st["item"]))
         elif st["op"] == "retune":
-            node_at(cur, st["path"])["leaf"] = copy.deepcopy(st["leaf"])
+            apply_retune(cur, st["path"], st["leaf"])
     out.append(cur)
     return out
 
@@ -1654,8 +1758,9 @@ def observe_session(case):
     trees = session_trees(case)
     ljs = [build(t)[1] for t in trees]          # model side: fresh objects of the spec in force at each step
     reg = {}
+    shared = {}                                 # the long-lived component objects held several times
     work = copy.deepcopy(case["tree"])          # carries the parameter tags of the long-lived objects
-    c, _ = build(work, reg)
+    c, _ = build(work, reg, shared)
     proc = case["path"] == "processor"
     obj = pcvl.Processor(case["backend"], c) if proc else SimulatorFactory.build(c, case["backend"])
     out = []
@@ -1669,12 +1774,12 @@ def observe_session(case):
         try:
             if op == "set":
                 work = copy.deepcopy(st["tree"])
-                reg = {}
-                c, _ = build(work, reg)
+                reg, shared = {}, {}
+                c, _ = build(work, reg, shared)
                 obj.set_circuit(c)
             elif op == "add":
                 item = copy.deepcopy(st["item"])
-                sub, _ = build(item["c"], reg)
+                sub, _ = build(item["c"], reg, shared)
                 work["ops"].append(item)
                 if proc:
                     obj.add(item["off"], sub)
@@ -1682,15 +1787,11 @@ def observe_session(case):
                     c.add(item["off"], sub)
                     obj.set_circuit(c)
             else:
-                leaf = node_at(work, st["path"])["leaf"]
                 vals = var_values(st["leaf"])
                 params = obj.get_circuit_parameters() if proc else {p.name: p for p in c.get_parameters()}
+                tag = apply_retune(work, st["path"], st["leaf"])     # (every occurrence of a shared object)
                 for key, v in vals.items():
-                    params[key + leaf["tag"]].set_value(v)
-                tag = leaf["tag"]
-                leaf.clear()
-                leaf.update(copy.deepcopy(st["leaf"]))
-                leaf["tag"] = tag
+                    params[key + tag].set_value(v)
                 if not proc:
                     obj.set_circuit(c)           # the documented way to make a simulator see new parameter values
             out.append(None)
@@ -1847,6 +1948,24 @@ def count_session(chk, case):
     for st in case["steps"]:
         if st["op"] in ("set", "add", "retune"):
             chk.branch("session-" + st["op"])
+    trees = session_trees(case)
+    for k, st in enumerate(case["steps"]):
+        later_query = any(s2["op"] in QUERY_OPS for s2 in case["steps"][k + 1:])
+        if st["op"] in QUERY_OPS:
+            shapes = share_shapes(trees[k])
+            if shapes:
+                chk.branch("shared-session")
+                for s in shapes:
+                    chk.branch(s)
+                    chk.count("shared_shape", s)
+        elif st["op"] == "retune" and later_query and any(s2["op"] in QUERY_OPS for s2 in case["steps"][:k]):
+            key = node_at(trees[k], st["path"]).get("share")
+            if key is not None and shared_key_count(trees[k], key) > 1:
+                chk.branch("shared-object-retuned")
+                chk.branch("shared-session-retuned")
+        elif st["op"] == "add" and later_query and st["item"]["c"].get("share") is not None and \
+                shared_key_count(trees[k], st["item"]["c"]["share"]) > 0:
+            chk.branch("shared-session-added-again")
     chk.count("kind", "session")
     chk.count("session_steps", len(case["steps"]))
     nontrivial = any(k in POL_KINDS for k in kinds) and any(k in ("BS", "U", "UH", "PERM") for k in kinds)
@@ -2402,6 +2521,206 @@ def gen_case_ext(chk, rng, max_m, max_depth, max_ops, nmax):
             "sel": gen_sel(rng, m, modes, path)}
 
 
+# ------------------------------------------------------------------------------------------------
+# extension 4: SHARED component objects.  `Circuit.add` stores the component object itself, so one WP / PBS / BS /
+# sub-circuit object may sit at several places of a circuit (and of its sub-circuits).  The property is about the
+# circuit, not about object identity: the doubled matrix is the product over the occurrences, each embedded at ITS
+# range, with the parameter values in force at the time of the evaluation.
+# ------------------------------------------------------------------------------------------------
+def all_nodes(tree):
+    yield tree
+    if "circ" in tree:
+        for op in tree["ops"]:
+            yield from all_nodes(op["c"])
+
+
+def share_all(node, keys):
+    """give every node of a pool object a share key (all of it is one long-lived object graph)"""
+    for nd in all_nodes(node):
+        if "share" not in nd:
+            nd["share"] = next(keys)
+    return node
+
+
+def hosts(tree, width, pre=(), depth=0):
+    """circuit nodes (path, node, depth) that are not (part of) a shared object and can hold a component of `width`"""
+    if "leaf" in tree or "share" in tree:
+        return
+    if tree["circ"] >= width:
+        yield pre, tree, depth
+    for i, op in enumerate(tree["ops"]):
+        yield from hosts(op["c"], width, pre + (i,), depth + 1)
+
+
+def gen_occurrence(rng, host_m, node, avoid=None):
+    w = tree_size(node)
+    offs = [o for o in range(host_m - w + 1) if o != avoid] or [avoid]
+    via = rng.choice([None, None, None, "//", "@"])
+    occ = {"off": rng.choice(offs), "c": copy.deepcopy(node), "merge": rng.choice([None, True, False])}
+    if via:
+        occ.update(merge=True, via=via)          # `//` and `@` are add(..., merge=True)
+    return occ
+
+
+def gen_shared_tree(rng, m, depth, max_ops, p_var=0.5, polarised=True):
+    """a circuit built from a pool of 1-2 long-lived objects (polarising leaf, ordinary leaf, sub-circuit), each added
+    2-3 times: at two different ranges of one circuit, twice at the same range, inside a sub-circuit and outside it"""
+    keys = itertools.count(1)
+    tree = gen_tree(rng, m, depth, max_ops)
+    pool = []
+    for _ in range(rng.choice([1, 1, 2])):
+        wmax = max(1, m - 1)
+        r = rng.random()
+        if r < 0.55:
+            node = {"leaf": gen_pol_leaf(rng, wmax)}
+            for _ in range(3 if p_var >= 0.8 else 0):      # (long-lived circuits: mostly tunable objects)
+                if node["leaf"]["t"] not in VAR_KINDS:
+                    node = {"leaf": gen_pol_leaf(rng, wmax)}
+        elif r < 0.75:
+            node = {"leaf": gens.gen_leaf(rng, wmax, kinds=("BS", "PS", "PS", "U", "PERM"))}
+        else:
+            k = rng.randint(1, wmax)
+            node = gen_tree(rng, k, 0, 3, p_pol=0.6)
+            if pool and tree_size(pool[0]) <= k and rng.random() < 0.6:
+                # the sub-circuit object holds an earlier pool object (which also sits outside it)
+                node["ops"].insert(rng.randint(0, len(node["ops"])), gen_occurrence(rng, k, pool[0]))
+        for nd in all_nodes(node):
+            if "leaf" in nd and "share" not in nd and nd["leaf"]["t"] in VAR_KINDS and rng.random() < p_var:
+                nd["leaf"]["var"] = True
+        pool.append(share_all(node, keys))
+    for node in pool:
+        w = tree_size(node)
+        first = None            # (host path, offset) of the first occurrence
+        for j in range(rng.choice([2, 2, 3])):
+            hs = list(hosts(tree, w))
+            r = rng.random()
+            if first is not None and r < 0.55:
+                cand = [h for h in hs if h[0] == first[0]]            # same circuit level as the first occurrence
+            elif r < 0.8:
+                cand = [h for h in hs if h[2] > 0]                    # inside a sub-circuit
+                if not cand and m >= 2:
+                    k = rng.randint(w, m)
+                    sub = {"circ": k, "ops": [{"off": rng.randint(0, k - lw), "c": {"leaf": lf}, "merge": None}
+                                              for lf in [gen_leaf(rng, k, 0.4) for _ in range(rng.randint(0, 2))]
+                                              for lw in [leaf_width(lf)]]}
+                    tree["ops"].insert(rng.randint(0, len(tree["ops"])),
+                                       {"off": rng.randint(0, m - k), "c": sub, "merge": rng.choice([None, False, True])})
+                    cand = [h for h in hosts(tree, w) if h[1] is sub]
+            else:
+                cand = hs[:1]
+            pth, host, _ = rng.choice(cand or hs[:1])
+            same_host = first is not None and pth == first[0]
+            avoid = first[1] if same_host and rng.random() < 0.75 else None
+            occ = gen_occurrence(rng, host["circ"], node, avoid)
+            if same_host and avoid is None and rng.random() < 0.5:
+                occ["off"] = first[1]                                  # twice at the same range
+            pos = rng.randint(0, len(host["ops"]))
+            host["ops"].insert(pos, occ)
+            if first is None:
+                first = (pth, occ["off"])
+    if polarised:
+        force_polarised(rng, tree)
+    return tree
+
+
+def share_shapes(tree):
+    """names of the sharing shapes present in a circuit tree (for the required branches)"""
+    occ = {}          # key -> [(id of the holding circuit node, offset, depth, node)]
+
+    def walk(node, depth):
+        if "leaf" in node:
+            return
+        for op in node["ops"]:
+            k = op["c"].get("share")
+            if k is not None:
+                occ.setdefault(k, []).append((id(node), op["off"], depth, op["c"], op))
+            walk(op["c"], depth + 1)
+    walk(tree, 0)
+    out = set()
+    for k, lst in occ.items():
+        if len(lst) < 2:
+            continue
+        node = lst[0][3]
+        out.add("shared-subcircuit" if "circ" in node else
+                ("shared-polarising" if is_pol(node["leaf"]) else "shared-ordinary"))
+        for a, b in itertools.combinations(lst, 2):
+            if a[0] == b[0]:
+                out.add("shared-object-two-ranges" if a[1] != b[1] else "shared-object-same-range")
+                if a[1] != b[1] and "circ" in node and (a[4]["merge"] or b[4]["merge"]):
+                    out.add("shared-subcircuit-merged-two-ranges")
+            else:
+                out.add("shared-object-nested")
+        for _, _, _, _, op in lst:
+            if op.get("via"):
+                out.add("shared-via-floordiv" if op["via"] == "//" else "shared-via-matmul")
+    return out
+
+
+def shared_key_count(tree, key):
+    return sum(1 for nd in all_nodes(tree) if nd.get("share") == key)
+
+
+def apply_retune(tree, path, new):
+    """the leaf at `path` gets new angles — and so does every other occurrence of the same (shared) object"""
+    node = node_at(tree, path)
+    key = node.get("share")
+    targets = [node] if key is None else [nd for nd in all_nodes(tree) if nd.get("share") == key and "leaf" in nd]
+    for nd in targets:
+        tag = nd["leaf"].get("tag")
+        nd["leaf"] = copy.deepcopy(new)
+        if tag is not None:
+            nd["leaf"]["tag"] = tag
+    return node["leaf"].get("tag")
+
+
+def gen_retunes(rng, tree, shared_only=True):
+    """re-tunings of variable leaves (of a shared object when there is one)"""
+    vars_ = [(pth, node_at(tree, pth)) for pth, lf in leaf_paths(tree) if lf.get("var")]
+    sh = [(p, nd) for p, nd in vars_ if nd.get("share") is not None and shared_key_count(tree, nd["share"]) > 1]
+    pick = sh if (sh and shared_only) else vars_
+    if not pick:
+        return []
+    out = []
+    for _ in range(rng.randint(1, 2)):
+        pth, nd = rng.choice(pick)
+        out.append({"path": list(pth), "leaf": regen_leaf(rng, nd["leaf"])})
+    return out
+
+
+def gen_case_shared(chk, rng, max_m, max_depth, max_ops, nmax):
+    m = rng.choice([2, 3, 3] + ([4] if max_m >= 4 else []))
+    r = rng.random()
+    if r < 0.45:
+        tree = gen_shared_tree(rng, m, rng.randint(0, max_depth), rng.randint(1, max_ops // 2),
+                               polarised=rng.random() < 0.85)
+        case = {"kind": "unitary", "tree": tree, "flag": True if not requires(tree) else rng.choice([True, True, None])}
+        if rng.random() < 0.55:
+            rt = gen_retunes(rng, tree)
+            if rt:
+                # a long-lived circuit: evaluated, a shared object re-tuned in place, evaluated again
+                case["pre"] = [rng.choice([None, True])]
+                case["retune"] = rt
+        elif rng.random() < 0.25:
+            case["pre"] = [rng.choice([None, True])]
+        return case
+    tree = gen_shared_tree(rng, m, rng.randint(0, max_depth), rng.randint(1, max_ops // 2))
+    backend = rng.choice(["SLOS", "Naive"])
+    if r < 0.75:
+        modes = gen_input(rng, m, nmax)
+        path = rng.choice(["factory", "factory", "processor"])
+        if path == "processor":
+            modes = for_processor(modes)
+        return {"kind": "probs", "tree": tree, "modes": modes, "path": path, "backend": backend}
+    if r < 0.88:
+        return {"kind": "evolve", "tree": tree, "modes": gen_input(rng, m, nmax), "backend": backend}
+    path = rng.choice(["processor", "factory"])
+    modes = gen_input(rng, m, nmax)
+    if path == "processor":
+        modes = for_processor(modes)
+    return {"kind": "select", "tree": tree, "modes": modes, "path": path, "backend": backend,
+            "sel": gen_sel(rng, m, modes, path)}
+
+
 class LockedLean:
     """the Lean driver behind a lock: one request stream, used by the pipeline thread and by judge/shrink"""
 
@@ -2583,7 +2902,12 @@ def run(chk: core.Check):
         # extension 3: one component of every class x flag; the Processor's input bookkeeping
         "leaf-pol-own", "leaf-ordinary-doubled", "leaf-ordinary-plain", "leaf-pol-false-rejected",
         "proc-query", "proc-pol-after-noise", "proc-plain-after-noise", "proc-auto-filter-refused", "proc-clear",
-        "proc-pol-after-plain", "proc-plain-after-pol", "proc-noisy-source-rejected", "proc-polarised-simulated"]
+        "proc-pol-after-plain", "proc-plain-after-pol", "proc-noisy-source-rejected", "proc-polarised-simulated",
+        # extension 4: ONE component object held several times by a polarised circuit
+        "shared-object-two-ranges", "shared-object-same-range", "shared-object-nested", "shared-object-retuned",
+        "shared-subcircuit", "shared-subcircuit-merged-two-ranges", "shared-polarising", "shared-ordinary",
+        "shared-via-floordiv", "shared-via-matmul", "shared-unitary", "shared-probs", "shared-processor",
+        "shared-evolve", "shared-select", "shared-session", "shared-session-retuned", "shared-session-added-again"]
     chk.lean = LockedLean(core.LeanDriver("C13"))
     check_labels(chk)
     rng = chk.rng
@@ -2606,6 +2930,11 @@ def run(chk: core.Check):
     # extension 3 (generated after everything else: the cases above are the same as before for a given seed)
     run_leaves(chk, rng, chk.pick(2, 10))
     run_procs(chk, rng, chk.pick(70, 500), max_m, max_depth, max_ops, nmax)
+    # extension 4 (generated last, for the same reason)
+    shared_cases = [gen_case_shared(chk, rng, max_m, max_depth, max_ops, nmax) for _ in range(chk.pick(110, 260))]
+    handle_batch(chk, shared_cases)
+    handle_sessions(chk, [gen_session(chk, rng, max_m, max_depth, max_ops, nmax, chk.pick(4, 5), shared=True)
+                          for _ in range(chk.pick(24, 60))])
 
 
 def replay(chk, data):
